@@ -63,6 +63,7 @@ def main():
         msgs.append(m)
     msgs += K.leakage()
     msgs += K.sv_without_jumps()
+    msgs += K.sv_trajectories_do_not_share_the_matrix()
     K.known_f24()
     K.known_f25()
     if msgs:
